@@ -25,7 +25,7 @@ fn direct(kind: &str, route_salt: usize, len: usize, runs: &Runs) -> AnyBv {
     }
 }
 
-fn convert(src: &AnyBv, to: &str, salt: usize) -> AnyBv {
+pub fn convert(src: &AnyBv, to: &str, salt: usize) -> AnyBv {
     match (src, to) {
         (AnyBv::Plain(b), "plain") => AnyBv::Plain(BitVector::copy_bit_vec(b)),
         (AnyBv::Sparse(b), "plain") => AnyBv::Plain(if salt % 2 == 0 { BitVector::from(b.clone()) } else { BitVector::copy_bit_vec(b) }),
@@ -40,7 +40,7 @@ fn convert(src: &AnyBv, to: &str, salt: usize) -> AnyBv {
     }
 }
 
-fn enable(o: &mut AnyBv, s: &str) {
+pub fn enable(o: &mut AnyBv, s: &str) {
     macro_rules! en { ($b:expr) => { match s { "rank" => $b.enable_rank(), "select" => $b.enable_select(), "select_zero" => $b.enable_select_zero(), "pred_succ" => $b.enable_pred_succ(), _ => panic!("TOOL-ERROR: unknown support {}", s) } } }
     match o { AnyBv::Plain(b) => en!(b), AnyBv::Sparse(b) => en!(b), AnyBv::RL(b) => en!(b) }
 }
@@ -52,7 +52,7 @@ fn flags(o: &AnyBv) -> Value {
 
 fn type_of(o: &AnyBv) -> &'static str { match o { AnyBv::Plain(_) => "plain", AnyBv::Sparse(_) => "sparse", AnyBv::RL(_) => "rl" } }
 
-fn bytes_of(o: &AnyBv) -> Vec<u8> { match o { AnyBv::Plain(b) => to_bytes(b), AnyBv::Sparse(b) => to_bytes(b), AnyBv::RL(b) => to_bytes(b) } }
+pub fn bytes_of(o: &AnyBv) -> Vec<u8> { match o { AnyBv::Plain(b) => to_bytes(b), AnyBv::Sparse(b) => to_bytes(b), AnyBv::RL(b) => to_bytes(b) } }
 
 fn reload(o: &AnyBv) -> Result<AnyBv, String> {
     let bytes = bytes_of(o);
@@ -66,7 +66,7 @@ fn reload(o: &AnyBv) -> Result<AnyBv, String> {
     Ok(r)
 }
 
-fn same(a: &AnyBv, b: &AnyBv) -> bool {
+pub fn same(a: &AnyBv, b: &AnyBv) -> bool {
     match (a, b) { (AnyBv::Plain(x), AnyBv::Plain(y)) => x == y, (AnyBv::Sparse(x), AnyBv::Sparse(y)) => x == y, (AnyBv::RL(x), AnyBv::RL(y)) => x == y, _ => false }
 }
 
@@ -77,7 +77,7 @@ fn content(o: &AnyBv) -> Value {
 }
 
 /// The directly built structure of the same type with the given support flags enabled in canonical order.
-fn canonical(kind: &str, len: usize, runs: &Runs, fl: &Value) -> AnyBv {
+pub fn canonical(kind: &str, len: usize, runs: &Runs, fl: &Value) -> AnyBv {
     let mut d = direct(kind, 0, len, runs);
     if kind == "plain" {
         for s in ["rank", "select", "select_zero"] { if fl[s] == json!(true) { enable(&mut d, s); } }
